@@ -201,6 +201,15 @@ def cases(tier):
     B2.append(("if_true", ifsrc, loop, {"flag": True}))
     other = Spec(("x", "y", "z"), ("e",), ("a", "b"), ("x = a*x[-1] + b + e", "y = 0", "z = x[-1] - y[+1]"))
     B2.append(("if_false", ifsrc, other, {"flag": False}))
+    # parenthesised control names and their case-changing spellings: ?(c) token as written, ?[c] lower case, ?{c} upper case, ?(c)|lower, ?(c)|upper
+    def _case_loop(body_token, names):
+        return ("!transition-variables\n    !for ?(c) = Us, eA !do x_" + body_token + " !end\n!transition-shocks\n    e\n!parameters\n    a, b\n!transition-equations\n"
+                "    !for ?(c) = Us, eA !do\n        x_" + body_token + " = a*x_" + body_token + "[-1] + b + e;\n    !end\n",
+                Spec(names, ("e",), ("a", "b"), tuple(f"{n} = a*{n}[-1] + b + e" for n in names)))
+    for cid, tok, names in (("as_written", "?(c)", ("x_Us", "x_eA")), ("lower_bracket", "?[c]", ("x_us", "x_ea")), ("upper_brace", "?{c}", ("x_US", "x_EA")),
+                            ("lower_filter", "?(c)|lower", ("x_us", "x_ea")), ("upper_filter", "?(c)|upper", ("x_US", "x_EA"))):
+        src_, sp_ = _case_loop(tok, names)
+        B2.append((f"for_loop_control_case:{cid}", src_, sp_, None))
     # an !if without !else followed by a sibling !if ... !else ... !end
     ifsib = ("!transition-variables\n    x, y, z\n!transition-shocks\n    e\n!parameters\n    a, b\n!transition-equations\n"
              "    x = a*x[-1] + b + e;\n    !if flag !then\n    y = a*y[-1] + b + e;\n    !end\n"
